@@ -1,5 +1,4 @@
-import TmcgProofs.Dkg
-import Tmcg.Model.Cgjkr
+import TmcgProofs.CgjkrAgreeB
 /-
   C15 for `CanettiGennaroJareckiKrawczykRabinDKG::Generate` (model: Tmcg/Model/Cgjkr.lean), global layer:
   all honest parties compute the same qualified set of the joint sharing of the key (`x_rvss->QUAL`, the
@@ -9,6 +8,15 @@ import Tmcg.Model.Cgjkr
   The statement is the analogue of `qual_agree'` / `honest_in_qual'` (TmcgProofs/DkgAgree.lean) for the
   first four rounds of `runGenC` (rounds 0-3 = `x_rvss->Share`; later rounds never change `xr.qual`).
   As there, `n < 2^64` is needed (`mpz_get_ui` truncates the end marker `n` of a complaint list).
+
+  Structure (the adaptation of sections (8)-(12) of DkgAgree.lean; the readers and the step
+  specifications are in CgjkrAgreeA.lean, the link between `genStepC` and the `rv*` steps in
+  CgjkrAgreeB.lean):
+    (9)  the run: initial parties, `HS` (what an honest party's state keeps through rounds 0-3), `AgC`
+    (9') round 0 (`S1C`, `InvC1`)
+    (10) round 1 (`S2C`, `CrossC2`, `InvC2`)
+    (11) round 2 (`S3C`, `InvC3`)
+    (12) round 3 (`InvC4`) and the theorems
 -/
 namespace Tmcg.CgjkrP
 open Tmcg Tmcg.Powm Tmcg.Dkg Tmcg.Grp Tmcg.DkgL Tmcg.DkgP Tmcg.Cgjkr
@@ -16,13 +24,781 @@ open Tmcg Tmcg.Powm Tmcg.Dkg Tmcg.Grp Tmcg.DkgL Tmcg.DkgP Tmcg.Cgjkr
 variable {G : Dkg.Grp} [Fact (Nat.Prime G.p.natAbs)]
 
 set_option linter.unusedSectionVars false
+set_option linter.unusedVariables false
 
 /-- coins of an honest party in `Generate`: the coefficients of `x_rvss` (`2(t+1)`), `r_i`, `r'_i`, the
     coefficients of `d_rvss` (`2(t+1)`), all below `q` (as `tmcg_mpz_srandomm` returns them) -/
 def goodCoinsC (G : Dkg.Grp) (t : Nat) (pin : PartyIn) : Prop :=
   4 * (t + 1) + 2 ≤ pin.strong.length ∧ ∀ c ∈ pin.strong, 0 ≤ c ∧ c < G.q
 
-/-- all honest parties compute the same `x_rvss->QUAL` (for ALL scripts of the other parties) -/
+/-! ### (9) the run -/
+
+theorem xa_goodCoins (t : Nat) (pin : PartyIn) (h : goodCoinsC G t pin) : goodCoins G t pin :=
+  ⟨by have := h.1; omega, h.2⟩
+
+theorem xa_coin_range (hq : 0 < G.q) (t : Nat) (pin : PartyIn) (h : goodCoinsC G t pin) (k : Nat) :
+    (getI pin.strong k).natAbs < G.q.natAbs := by
+  rcases xa_getI_mem_or pin.strong k with hm | h0
+  · exact natAbs_lt_of_range (h.2 _ hm)
+  · rw [h0]; omega
+
+/-- the parties before round 0 -/
+def ps0C (n t : Nat) (ins : List PartyIn) : List (Party GSt) :=
+  (List.range n).zip ins |>.map (fun (i, pin) =>
+    { dev := pin.dev1, piCnt := List.replicate n 0, inbox := Inbox.empty n,
+      st := { n := n, t := t, i := i, sfb := pin.dev1.sfb } })
+
+theorem xa_runGenC_eq (n t : Nat) (ins : List PartyIn) :
+    runGenC G n t ins = runRounds (genStepC G ins) (List.range (genRounds t)) (ps0C n t ins) := rfl
+
+theorem xa_ps0C_length (n t : Nat) (ins : List PartyIn) (hn : ins.length = n) : (ps0C n t ins).length = n := by
+  simp [ps0C, hn]
+
+theorem xa_ps0C_getElem? (n t : Nat) (ins : List PartyIn) (hn : ins.length = n) (i : Nat) (hi : i < n) :
+    (ps0C n t ins)[i]? = some { dev := (pinOf ins i).dev1, piCnt := List.replicate n 0, inbox := Inbox.empty n, st := { n := n, t := t, i := i, sfb := (pinOf ins i).dev1.sfb } } := by
+  have h := ag_zipRange_getElem? ins 0 i
+  rw [← List.range_eq_range', hn] at h
+  unfold ps0C
+  rw [List.getElem?_map, h]
+  have hi' : i < ins.length := by omega
+  simp [pinOf, List.getElem?_eq_getElem hi']
+
+/-- the hypotheses of the agreement theorems -/
+structure SettingC (G : Grp) (n t : Nat) (ins : List PartyIn) : Prop where
+  hG : ValidGrp G
+  hn : ins.length = n
+  hc : ∀ i ∈ honestIdx ins, goodCoinsC G t (pinOf ins i)
+
+/-- what the state of a party that follows the protocol keeps through rounds 0-3 -/
+structure HS (G : Grp) (n t : Nat) (ins : List PartyIn) (i : Nat) (st : GSt) : Prop where
+  hn : st.n = n
+  ht : st.t = t
+  hi : st.i = i
+  sfb : st.sfb = false
+  strong : st.strong = (pinOf ins i).strong
+  z : st.xr.z.natAbs < G.q.natAbs
+  zp : st.xr.zp.natAbs < G.q.natAbs
+
+/-- agreement of two honest parties on the unread values of every third sender -/
+def AgC (n : Nat) (ins : List PartyIn) (R : List (Party GSt)) : Prop :=
+  ∀ i i' P P', i ∈ honestIdx ins → i' ∈ honestIdx ins → R[i]? = some P → R[i']? = some P' →
+    ∀ k, k < n → k ≠ i → k ≠ i' → bsOf P.inbox k = bsOf P'.inbox k
+
+/-- after round 0 -/
+structure S1C (G : Grp) (n t : Nat) (ins : List PartyIn) (i : Nat) (P : Party GSt) : Prop where
+  hl : HL P
+  hs : HS G n t ins i P.st
+  dealt : DealtC G n t i (pinOf ins i) P.st.xr
+  blen : P.inbox.b.length = n
+  plen : P.inbox.p.length = n
+  fromH : ∀ j, j ∈ honestIdx ins → j ≠ i →
+    bsOf P.inbox j = (comOf G t (pinOf ins j)).map (fun v => (tagX n, v)) ∧
+    psOf P.inbox j = [shA G t (pinOf ins j) i, shB G t (pinOf ins j) i]
+
+def InvC1 (G : Grp) (n t : Nat) (ins : List PartyIn) (R : List (Party GSt)) : Prop :=
+  R.length = n ∧ (∀ i, i ∈ honestIdx ins → ∃ P, R[i]? = some P ∧ S1C G n t ins i P) ∧ AgC n ins R
+
+theorem xa_bcs_map_bc (tag : Tag) (l : List Int) : bcs (l.map (Op.bc tag)) = l.map (fun v => (tag, v)) := by
+  induction l with
+  | nil => rfl
+  | cons x l ih => simp [bcs, ih]
+
+theorem xa_round0 {n t : Nat} {ins : List PartyIn} (S : SettingC G n t ins) :
+    InvC1 G n t ins (runRound (genStepC G ins 0) (ps0C n t ins)) := by
+  have hstep : ∀ i, i ∈ honestIdx ins → ∃ (P : Party GSt) (st : GSt),
+      (ps0C n t ins)[i]? = some P ∧ HL P ∧ P.inbox = Inbox.empty n ∧ HS G n t ins i st ∧
+      DealtC G n t i (pinOf ins i) st.xr ∧
+      genStepC G ins 0 i P.st P.inbox = .ok (st, Inbox.empty n,
+        (comOf G t (pinOf ins i)).map (Op.bc (tagX n)) ++ ((List.range n).filter (· ≠ i)).flatMap
+          (fun j => [Op.pv j (getI st.xr.srow j), Op.pv j (getI st.xr.sprow j)]), .run) := by
+    intro i hi
+    obtain ⟨hi1, hi2⟩ := (ag_mem_honestIdx ins i).mp hi
+    rw [S.hn] at hi1
+    have hsfb := (ag_honest_unpack _ hi2).1
+    obtain ⟨rv, hrv, hd⟩ := xa_rvDeal_honest (envOf G n t i) S.hG (fun j hj => xa_envOf_pt n t i j hj) (tagX n)
+      (wbit (pinOf ins i).weak 10) (pinOf ins i) (xa_goodCoins t _ (S.hc i hi)) hi1
+    obtain ⟨st, hst, e1, e2, e3, e4, e5, e6⟩ := xa_step0 (G := G) ins i
+      { n := n, t := t, i := i, sfb := (pinOf ins i).dev1.sfb } (Inbox.empty n) rv _
+      (by rw [hsfb]; exact hrv)
+    refine ⟨_, st, xa_ps0C_getElem? n t ins S.hn i hi1, ⟨hi2, rfl, rfl, rfl⟩, rfl,
+      ⟨e2, e3, e4, e5.trans hsfb, e6, by rw [e1]; exact hd.z, by rw [e1]; exact hd.zp⟩, by rw [e1]; exact hd, ?_⟩
+    rw [e1]
+    exact hst
+  refine ⟨by rw [ag_runRound_length, xa_ps0C_length n t ins S.hn], ?_, ?_⟩
+  · intro i hi
+    obtain ⟨P, st, hP, hl, hI, hs, hd, hs0⟩ := hstep i hi
+    obtain ⟨-, P', hP', e1, e2, e3, e4, e5, e6, e7, e8, e9⟩ :=
+      ag_honest_round (genStepC G ins 0) (ps0C n t ins) i P hP hl _ _ _ _ hs0
+    have hbl : (Inbox.empty n).b.length = n := by simp [Inbox.empty]
+    have hpl : (Inbox.empty n).p.length = n := by simp [Inbox.empty]
+    refine ⟨P', hP', ⟨⟨by rw [e4]; exact hl.1, e5, e3, e2⟩, by rw [e1]; exact hs, by rw [e1]; exact hd,
+      e6.trans hbl, e7.trans hpl, ?_⟩⟩
+    intro j hj hji
+    obtain ⟨hj1, hj2⟩ := (ag_mem_honestIdx ins j).mp hj
+    rw [S.hn] at hj1
+    obtain ⟨hi1, -⟩ := (ag_mem_honestIdx ins i).mp hi
+    rw [S.hn] at hi1
+    obtain ⟨Pj, stj, hPj, hlj, hIj, hsj, hdj, hsj0⟩ := hstep j hj
+    have hout := (ag_honest_round (genStepC G ins 0) (ps0C n t ins) j Pj hPj hlj _ _ _ _ hsj0).1
+    constructor
+    · rw [e8 j (by rw [hbl]; exact hj1), ag_bsOf_empty, hout]
+      simp [hji, ag_bcs_append, xa_bcs_map_bc, ag_bcs_sends]
+    · rw [e9 j (by rw [hpl]; exact hj1), ag_psOf_empty, hout]
+      simp only [hji, if_false, List.nil_append, ag_pvs_append, ag_pvs_map_bc]
+      rw [ag_pvs_sends _ (List.Nodup.filter _ List.nodup_range)]
+      have : i ∈ (List.range n).filter (· ≠ j) := by
+        simp [List.mem_filter, hi1, Ne.symm hji]
+      rw [if_pos this, hdj.srow, hdj.sprow, ag_getI_map_range _ _ i hi1, ag_getI_map_range _ _ i hi1]
+  · intro i i' P1 P1' hi hi' hP1 hP1' k hk hki hki'
+    obtain ⟨P, st, hP, hl, hI, hs, hd, hs0⟩ := hstep i hi
+    obtain ⟨-, P', hP', e1, e2, e3, e4, e5, e6, e7, e8, e9⟩ :=
+      ag_honest_round (genStepC G ins 0) (ps0C n t ins) i P hP hl _ _ _ _ hs0
+    obtain ⟨Q, stq, hQ, hlq, hIq, hsq, hdq, hsq0⟩ := hstep i' hi'
+    obtain ⟨-, Q', hQ', f1, f2, f3, f4, f5, f6, f7, f8, f9⟩ :=
+      ag_honest_round (genStepC G ins 0) (ps0C n t ins) i' Q hQ hlq _ _ _ _ hsq0
+    rw [hP'] at hP1
+    rw [hQ'] at hP1'
+    injection hP1 with hP1
+    injection hP1' with hP1'
+    subst hP1 hP1'
+    have hbl : (Inbox.empty n).b.length = n := by simp [Inbox.empty]
+    rw [e8 k (by rw [hbl]; exact hk), f8 k (by rw [hbl]; exact hk)]
+    simp [hki, hki']
+
+/-! ### (10) round 1: the commitments, the shares, the complaints -/
+
+theorem xa_bcs_map_nat (tag : Tag) (D : List Nat) (n : Nat) :
+    bcs (D.map (fun (j : Nat) => Op.bc tag (j : Int)) ++ [Op.bc tag (n : Int)]) =
+      D.map (fun (j : Nat) => (tag, (j : Int))) ++ [(tag, (n : Int))] := by
+  induction D with
+  | nil => rfl
+  | cons x D ih => simp only [List.map_cons, List.cons_append, bcs, ih]
+
+/-- step 1(b) of an honest party in the state reached after round 0 -/
+theorem xa_verify_honest {n t : Nat} {ins : List PartyIn} (S : SettingC G n t ins) (i : Nat)
+    (hi : i ∈ honestIdx ins) (P : Party GSt) (h1 : S1C G n t ins i P) :
+    ∃ (st' : GSt) (I' : Inbox) (D : List Nat), genStepC G ins 1 i P.st P.inbox =
+        .ok (st', I', D.map (fun (j : Nat) => Op.bc (tagX n) (j : Int)) ++ [Op.bc (tagX n) (n : Int)], .run) ∧
+      HS G n t ins i st' ∧
+      st'.xr.srow = (List.range n).map (shA G t (pinOf ins i)) ∧
+      st'.xr.sprow = (List.range n).map (shB G t (pinOf ins i)) ∧
+      D.Nodup ∧ (∀ x ∈ D, x < n) ∧
+      st'.xr.cnt = (List.range n).map (fun j => if D.contains j then 1 else 0) ∧
+      I'.b.length = n ∧
+      (∀ k, k < n → k ≠ i →
+        bsOf I' k = (reS G (tagX n) (t + 1) (bsOf P.inbox k) [] false).2.1 ∧
+        getRow st'.xr.C k = padRow t (reS G (tagX n) (t + 1) (bsOf P.inbox k) [] false).2.2) ∧
+      (∀ j, j ∈ honestIdx ins → getRow st'.xr.C j = comOf G t (pinOf ins j) ∧ j ∉ D) ∧
+      (∀ j, j ∈ honestIdx ins → j ≠ i → bsOf I' j = []) ∧
+      st'.xr.complainers = (List.range n).map (fun j => if D.contains j then [i] else []) ∧
+      InR G.q st'.xr.s := by
+  have hG := S.hG
+  have : Fact (Nat.Prime G.q.natAbs) := fact_q hG
+  have hq : 0 < G.q := hG.vg.q_pos
+  obtain ⟨hi1, -⟩ := (ag_mem_honestIdx ins i).mp hi
+  rw [S.hn] at hi1
+  have hd := h1.dealt
+  have hs := h1.hs
+  have hshare : ∀ j, j ∈ honestIdx ins → ∃ a l, pedS G (shA G t (pinOf ins j) i) (shB G t (pinOf ins j) i) = .ok (a, l) ∧
+      commitProd G.p (i + 1) (comOf G t (pinOf ins j)) = .ok l := by
+    intro j hj
+    have hcj := xa_goodCoins t _ (S.hc j hj)
+    obtain ⟨ha, hb, hla, hlb⟩ := ag_coef_range (G := G) t (pinOf ins j) hcj
+    obtain ⟨ga, l, r, e1, e2, e3⟩ := share_check hG _ _ (hla.trans hlb.symm) ha hb _
+      (ag_comOf_spec hG t (pinOf ins j) hcj).1 (i + 1)
+    exact ⟨ga, l, e1, by rw [e2, e3]⟩
+  have hspec := xa_rvVerify_spec (envOf G n t i) hG (tagX n) P.st.xr P.inbox hd.zero h1.blen h1.plen
+      (by rw [hd.C]; simp [zeroRows]) (by rw [hd.s]; simp [zeros]) (by rw [hd.sp]; simp [zeros])
+      (by rw [hd.s]; exact ag_InR_zeros_set G.q hq n i _ (ag_sh_range hG t _ i).2.2.1)
+      (by rw [hd.sp]; exact ag_InR_zeros_set G.q hq n i _ (ag_sh_range hG t _ i).2.2.2)
+  dsimp only [envOf] at hspec
+  rw [show Env.pt { G := G, n := n, t := t, i := i, pts := List.range n } i = i + 1 from xa_envOf_pt n t i i hi1]
+    at hspec
+  obtain ⟨rv', I', D, hv, v5, v6, vz, vzp, v7, v8, v9, v10, v11, v12, v13, v14, v15, v16, v17, v18⟩ := hspec
+  have hstep := xa_step1 (G := G) ins i P.st P.inbox I' rv' _
+    (by rw [xa_env_eq P.st n t i hs.hn hs.ht hs.hi, hs.hn]; exact hv)
+  have hrow : ∀ j, j ∈ honestIdx ins → j ≠ i →
+      reS G (tagX n) (t + 1) (bsOf P.inbox j) [] false = (false, [], comOf G t (pinOf ins j)) := by
+    intro j hj hji
+    obtain ⟨c1, c2, c3⟩ := ag_comOf_spec hG t (pinOf ins j) (xa_goodCoins t _ (S.hc j hj))
+    rw [(h1.fromH j hj hji).1, ← c2]
+    have := xa_reS_honest (envOf G n t i) (tagX n) (comOf G t (pinOf ins j)) c3 [] [] false
+    simpa using this
+  have hnotD : ∀ j, j ∈ honestIdx ins → j ∉ D := by
+    intro j hj
+    obtain ⟨hj1, -⟩ := (ag_mem_honestIdx ins j).mp hj
+    rw [S.hn] at hj1
+    obtain ⟨a, l, e1, e2⟩ := hshare j hj
+    by_cases hji : j = i
+    · subst hji
+      refine v16 a l ?_ ?_
+      · rw [hd.s, hd.sp, ag_getI_set, ag_getI_set]
+        simpa [zeros, hj1] using e1
+      · rw [hd.C, ag_getRow_set]
+        simpa [zeroRows, hj1] using e2
+    · have hr := hrow j hj hji
+      refine v15 j _ _ a l hj1 hji (by rw [hr]) (h1.fromH j hj hji).2 (ag_sh_range hG t _ i).1
+        (ag_sh_range hG t _ i).2.1 e1 ?_
+      rw [hr, ag_padRow_full t _ (ag_comOf_spec hG t (pinOf ins j) (xa_goodCoins t _ (S.hc j hj))).2.1]
+      exact e2
+  refine ⟨{ P.st with xr := rv' }, I', D, hstep,
+    ⟨hs.hn, hs.ht, hs.hi, hs.sfb, hs.strong, by rw [show ({ P.st with xr := rv' } : GSt).xr = rv' from rfl, vz]; exact hs.z,
+      by rw [show ({ P.st with xr := rv' } : GSt).xr = rv' from rfl, vzp]; exact hs.zp⟩,
+    by show rv'.srow = _; rw [v5, hd.srow], by show rv'.sprow = _; rw [v6, hd.sprow], v7, v8, v9, v10,
+    v12, ?_, ?_, v17, v18⟩
+  · intro j hj
+    refine ⟨?_, hnotD j hj⟩
+    obtain ⟨hj1, -⟩ := (ag_mem_honestIdx ins j).mp hj
+    rw [S.hn] at hj1
+    show getRow rv'.C j = _
+    by_cases hji : j = i
+    · subst hji
+      rw [v14, hd.C, ag_getRow_set]
+      simp [zeroRows, hj1]
+    · rw [(v12 j hj1 hji).2, hrow j hj hji,
+        ag_padRow_full t _ (ag_comOf_spec hG t (pinOf ins j) (xa_goodCoins t _ (S.hc j hj))).2.1]
+  · intro j hj hji
+    obtain ⟨hj1, -⟩ := (ag_mem_honestIdx ins j).mp hj
+    rw [S.hn] at hj1
+    rw [(v12 j hj1 hji).1, hrow j hj hji]
+
+/-- after round 1 -/
+structure S2C (G : Grp) (n t : Nat) (ins : List PartyIn) (i : Nat) (P : Party GSt) : Prop where
+  hl : HL P
+  hs : HS G n t ins i P.st
+  srow : P.st.xr.srow = (List.range n).map (shA G t (pinOf ins i))
+  sprow : P.st.xr.sprow = (List.range n).map (shB G t (pinOf ins i))
+  blen : P.inbox.b.length = n
+  clen : P.st.xr.cnt.length = n
+  CH : ∀ j, j ∈ honestIdx ins → getRow P.st.xr.C j = comOf G t (pinOf ins j) ∧ getN P.st.xr.cnt j = 0
+  cplen : P.st.xr.complainers.length = n
+  cps : ∀ k, k < n → ∀ c, c ∈ P.st.xr.complainers.getD k [] ↔ c = i ∧ 0 < getN P.st.xr.cnt k
+  sIn : InR G.q P.st.xr.s
+
+/-- two honest parties after round 1: the commitments of third parties agree, and the complaint
+    list `i` broadcast is read by `i'` as the complaints `i` counted for itself -/
+def CrossC2 (n : Nat) (i : Nat) (P P' : Party GSt) : Prop :=
+  rcBadT (tagX n) n (bsOf P'.inbox i) = false ∧ rcRestT (tagX n) n (bsOf P'.inbox i) = [] ∧
+  ∀ w, w < n → (rcNewsT (tagX n) n (bsOf P'.inbox i)).count w = getN P.st.xr.cnt w
+
+def InvC2 (G : Grp) (n t : Nat) (ins : List PartyIn) (R : List (Party GSt)) : Prop :=
+  R.length = n ∧ (∀ i, i ∈ honestIdx ins → ∃ P, R[i]? = some P ∧ S2C G n t ins i P) ∧ AgC n ins R ∧
+  (∀ i i' P P', i ∈ honestIdx ins → i' ∈ honestIdx ins → R[i]? = some P → R[i']? = some P' → i ≠ i' →
+    (∀ k, k < n → k ≠ i → k ≠ i' → getRow P.st.xr.C k = getRow P'.st.xr.C k) ∧ CrossC2 n i P P')
+
+/-- round 1 for one honest party: its step and the party after the round -/
+theorem xa_round1_party {n t : Nat} {ins : List PartyIn} (S : SettingC G n t ins) (R : List (Party GSt))
+    (h : InvC1 G n t ins R) (i : Nat) (hi : i ∈ honestIdx ins) :
+    ∃ (P : Party GSt) (st' : GSt) (I' : Inbox) (D : List Nat) (P' : Party GSt),
+    R[i]? = some P ∧ S1C G n t ins i P ∧
+    (runRound (genStepC G ins 1) R)[i]? = some P' ∧
+    outOf (genStepC G ins 1) R i =
+      (D.map (fun (j : Nat) => (tagX n, (j : Int))) ++ [(tagX n, (n : Int))], []) ∧
+    P'.st = st' ∧ HL P' ∧ P'.inbox.b.length = n ∧
+    (∀ k, k < n → bsOf P'.inbox k = bsOf I' k ++
+      (if k = i then [] else (outOf (genStepC G ins 1) R k).1)) ∧
+    HS G n t ins i st' ∧
+    st'.xr.srow = (List.range n).map (shA G t (pinOf ins i)) ∧
+    st'.xr.sprow = (List.range n).map (shB G t (pinOf ins i)) ∧
+    D.Nodup ∧ (∀ x ∈ D, x < n) ∧
+    st'.xr.cnt = (List.range n).map (fun j => if D.contains j then 1 else 0) ∧
+    (∀ k, k < n → k ≠ i →
+      bsOf I' k = (reS G (tagX n) (t + 1) (bsOf P.inbox k) [] false).2.1 ∧
+      getRow st'.xr.C k = padRow t (reS G (tagX n) (t + 1) (bsOf P.inbox k) [] false).2.2) ∧
+    (∀ j, j ∈ honestIdx ins → getRow st'.xr.C j = comOf G t (pinOf ins j) ∧ j ∉ D) ∧
+    (∀ j, j ∈ honestIdx ins → j ≠ i → bsOf I' j = []) ∧
+    st'.xr.complainers = (List.range n).map (fun j => if D.contains j then [i] else []) ∧
+    InR G.q st'.xr.s := by
+  obtain ⟨hlen, hS, hAg⟩ := h
+  obtain ⟨P, hP, h1⟩ := hS i hi
+  obtain ⟨st', I', D, hv, vs, v4, v5, v6, v7, v8, v9, v11, v12, v13, v14, v15⟩ := xa_verify_honest S i hi P h1
+  obtain ⟨hout, P', hP', e1, e2, e3, e4, e5, e6, e7, e8, e9⟩ :=
+    ag_honest_round (genStepC G ins 1) R i P hP h1.hl _ _ _ _ hv
+  refine ⟨P, st', I', D, P', hP, h1, hP', ?_, e1, ⟨by rw [e4]; exact h1.hl.1, e5, e3, e2⟩, e6.trans v9,
+    fun k hk => e8 k (by rw [v9]; exact hk), vs, v4, v5, v6, v7, v8, v11, v12, v13, v14, v15⟩
+  rw [hout, xa_bcs_map_nat]
+  congr 1
+  rw [ag_pvs_append]
+  have : ∀ (L : List Nat), pvs (L.map (fun (j : Nat) => Op.bc (tagX n) (j : Int))) = [] := by
+    intro L
+    induction L with
+    | nil => rfl
+    | cons x L ih => simp [pvs, ih]
+  simp [this, pvs]
+
+/-- round 1: the state of every honest party (no bound on `n` needed) -/
+theorem xa_round1_S2 {n t : Nat} {ins : List PartyIn} (S : SettingC G n t ins) (R : List (Party GSt))
+    (h : InvC1 G n t ins R) (i : Nat) (hi : i ∈ honestIdx ins) :
+    ∃ P, (runRound (genStepC G ins 1) R)[i]? = some P ∧ S2C G n t ins i P := by
+  have hparty := xa_round1_party S R h
+  obtain ⟨P, st', I', D, P', hP, h1, hP', hout, e1, hl', bl, hb, vs, v4, v5, v6, v7, v8, v11, v12, v13, v14, v15⟩ :=
+    hparty i hi
+  refine ⟨P', hP', ⟨hl', by rw [e1]; exact vs,
+    by rw [e1]; exact v4, by rw [e1]; exact v5, bl, by rw [e1, v8]; simp, ?_, by rw [e1, v14]; simp, ?_,
+    by rw [e1]; exact v15⟩⟩
+  · intro j hj
+    obtain ⟨hj1, -⟩ := (ag_mem_honestIdx ins j).mp hj
+    rw [S.hn] at hj1
+    rw [e1]
+    refine ⟨(v12 j hj).1, ?_⟩
+    rw [v8, ag_getN_map_range _ _ j hj1]
+    have := (v12 j hj).2
+    simp [this]
+  · intro k hk c
+    rw [e1, v14, v8, ag_getN_map_range _ _ k hk]
+    have : ((List.range n).map (fun j => if D.contains j then [i] else [])).getD k [] =
+        if D.contains k then [i] else [] := by
+      rw [List.getD_eq_getElem _ _ (by simpa using hk)]
+      simp
+    rw [this]
+    by_cases hD : k ∈ D
+    · simp [hD]
+    · simp [hD]
+
+theorem xa_round1 {n t : Nat} {ins : List PartyIn} (S : SettingC G n t ins) (hn64 : n < 2 ^ 64)
+    (R : List (Party GSt)) (h : InvC1 G n t ins R) :
+    InvC2 G n t ins (runRound (genStepC G ins 1) R) := by
+  have hparty := xa_round1_party S R h
+  have hS2 := xa_round1_S2 S R h
+  obtain ⟨hlen, hS, hAg⟩ := h
+  refine ⟨by rw [ag_runRound_length, hlen], ?_, ?_, ?_⟩
+  · exact hS2
+  · intro i i' P1 P1' hi hi' hP1 hP1' k hk hki hki'
+    obtain ⟨P, st', I', D, P', hP, h1, hP', hout, e1, hl', bl, hb, vs, v4, v5, v6, v7, v8, v11, v12, v13, v14, v15⟩ :=
+      hparty i hi
+    obtain ⟨Q, stq, Iq, Dq, Q', hQ, hq1, hQ', houtq, f1, hlq', blq, hbq, ws, w4, w5, w6, w7, w8, w11, w12, w13, w14, w15⟩ :=
+      hparty i' hi'
+    rw [hP'] at hP1
+    rw [hQ'] at hP1'
+    injection hP1 with hP1
+    injection hP1' with hP1'
+    subst hP1 hP1'
+    rw [hb k hk, hbq k hk, (v11 k hk hki).1, (w11 k hk hki').1, hAg i i' P Q hi hi' hP hQ k hk hki hki']
+    simp [hki, hki']
+  · intro i i' P1 P1' hi hi' hP1 hP1' hne
+    obtain ⟨P, st', I', D, P', hP, h1, hP', hout, e1, hl', bl, hb, vs, v4, v5, v6, v7, v8, v11, v12, v13, v14, v15⟩ :=
+      hparty i hi
+    obtain ⟨Q, stq, Iq, Dq, Q', hQ, hq1, hQ', houtq, f1, hlq', blq, hbq, ws, w4, w5, w6, w7, w8, w11, w12, w13, w14, w15⟩ :=
+      hparty i' hi'
+    rw [hP'] at hP1
+    rw [hQ'] at hP1'
+    injection hP1 with hP1
+    injection hP1' with hP1'
+    subst hP1 hP1'
+    obtain ⟨hi1, -⟩ := (ag_mem_honestIdx ins i).mp hi
+    rw [S.hn] at hi1
+    constructor
+    · intro k hk hki hki'
+      rw [e1, f1, (v11 k hk hki).2, (w11 k hk hki').2, hAg i i' P Q hi hi' hP hQ k hk hki hki']
+    · have hstream : bsOf Q'.inbox i =
+          D.map (fun (j : Nat) => (tagX n, (j : Int))) ++ [(tagX n, (n : Int))] := by
+        rw [hbq i hi1, w13 i hi hne, hout]
+        simp [hne]
+      have hrc := xa_rcT_honest (tagX n) n hn64 D (n + 1) 0 [] (by have := ag_nodup_lt_length n D v6 v7; omega)
+        (by have := ag_nodup_lt_length n D v6 v7; omega) v7 v6 (by simp)
+      refine ⟨?_, ?_, ?_⟩
+      · simp [rcBadT, hstream, hrc]
+      · simp [rcRestT, hstream, hrc]
+      · intro w hw
+        simp only [rcNewsT, hstream, hrc]
+        rw [e1, v8, ag_getN_map_range _ _ w hw, ag_count_indicator D v6 w]
+
+/-! ### (11) round 2: the complaint counters -/
+
+/-- after round 2 -/
+structure S3C (G : Grp) (n t : Nat) (ins : List PartyIn) (i : Nat) (P : Party GSt) : Prop where
+  hl : HL P
+  hs : HS G n t ins i P.st
+  blen : P.inbox.b.length = n
+  CH : ∀ j, j ∈ honestIdx ins →
+    getRow P.st.xr.C j = comOf G t (pinOf ins j) ∧ getN P.st.xr.cnt j ≤ t ∧ j ∉ P.st.xr.compl
+  sIn : InR G.q P.st.xr.s
+
+def InvC3 (G : Grp) (n t : Nat) (ins : List PartyIn) (R : List (Party GSt)) : Prop :=
+  R.length = n ∧ (∀ i, i ∈ honestIdx ins → ∃ P, R[i]? = some P ∧ S3C G n t ins i P) ∧ AgC n ins R ∧
+  (∀ i i' P P', i ∈ honestIdx ins → i' ∈ honestIdx ins → R[i]? = some P → R[i']? = some P' → i ≠ i' →
+    (∀ k, k < n → k ≠ i → k ≠ i' →
+      getRow P.st.xr.C k = getRow P'.st.xr.C k ∧ (k ∈ P.st.xr.compl ↔ k ∈ P'.st.xr.compl)) ∧
+    (∀ w, w < n → getN P.st.xr.cnt w = getN P'.st.xr.cnt w) ∧
+    raBadT (envOf G n t i') (tagX n) (comOf G t (pinOf ins i)) (bsOf P'.inbox i) = false ∧
+    (∀ k, k < n → k ≠ i → k ≠ i' →
+      ∀ c, c ∈ P.st.xr.complainers.getD k [] ↔ c ∈ P'.st.xr.complainers.getD k []) ∧
+    (∀ c, c ∈ P'.st.xr.complainers.getD i [] → c ∈ anT (tagX n) n (n + 1) (bsOf P'.inbox i) []))
+
+theorem xa_bcs_triples (tag : Tag) (cfs : List Nat) (a b : Nat → Int) (n : Nat) :
+    bcs (cfs.flatMap (fun (it : Nat) => [Op.bc tag (it : Int), Op.bc tag (a it), Op.bc tag (b it)]) ++
+      [Op.bc tag (n : Int)]) =
+    cfs.flatMap (fun (it : Nat) => [(tag, (it : Int)), (tag, a it), (tag, b it)]) ++
+      [(tag, (n : Int))] := by
+  induction cfs with
+  | nil => rfl
+  | cons x cfs ih => simp only [List.flatMap_cons, List.cons_append, List.nil_append, bcs, ih]
+
+/-- round 2 for one honest party: its step and the party after the round -/
+theorem xa_round2_party {n t : Nat} {ins : List PartyIn} (hn : ins.length = n) (R : List (Party GSt))
+    (hS : ∀ i, i ∈ honestIdx ins → ∃ P, R[i]? = some P ∧ S2C G n t ins i P)
+    (i : Nat) (hi : i ∈ honestIdx ins) :
+    ∃ (P : Party GSt) (st' : GSt) (I' : Inbox) (cfs : List Nat) (P' : Party GSt),
+    R[i]? = some P ∧ S2C G n t ins i P ∧
+    (runRound (genStepC G ins 2) R)[i]? = some P' ∧
+    (outOf (genStepC G ins 2) R i).1 =
+      cfs.flatMap (fun (it : Nat) => [(tagX n, (it : Int)),
+        (tagX n, getI P.st.xr.srow it), (tagX n, getI P.st.xr.sprow it)]) ++ [(tagX n, (n : Int))] ∧
+    cfs.length ≤ n ∧ (∀ x ∈ cfs, x < n) ∧
+    P'.st = st' ∧ HL P' ∧ P'.inbox.b.length = n ∧
+    (∀ k, k < n → bsOf P'.inbox k = bsOf I' k ++
+      (if k = i then [] else (outOf (genStepC G ins 2) R k).1)) ∧
+    HS G n t ins i st' ∧ st'.xr.C = P.st.xr.C ∧
+    (∀ k, k < n → k ≠ i → bsOf I' k = rcRestT (tagX n) n (bsOf P.inbox k)) ∧
+    (∀ w, w < n → getN st'.xr.cnt w = getN P.st.xr.cnt w +
+      (((List.range n).filter (fun x => x ≠ i)).map (fun x => (rcNewsT (tagX n) n (bsOf P.inbox x)).count w)).sum) ∧
+    (∀ k, k ∈ st'.xr.compl ↔ k < n ∧ k ≠ i ∧ rcBadT (tagX n) n (bsOf P.inbox k) = true) ∧
+    st'.xr.complainers.length = n ∧
+    (∀ k, k < n → ∀ x, x ∈ st'.xr.complainers.getD k [] ↔
+      (x = i ∧ 0 < getN P.st.xr.cnt k) ∨ (x < n ∧ x ≠ i ∧ k ∈ rcNewsT (tagX n) n (bsOf P.inbox x))) ∧
+    (∀ x, x < n → x ≠ i → i ∈ rcNewsT (tagX n) n (bsOf P.inbox x) → x ∈ cfs) ∧
+    InR G.q st'.xr.s := by
+  obtain ⟨P, hP, h2⟩ := hS i hi
+  have hs := h2.hs
+  have hin : i < n := by
+    have := ((ag_mem_honestIdx ins i).mp hi).1
+    rwa [hn] at this
+  have hspec := xa_rvCollect_spec (envOf G n t i) (tagX n) P.st.xr P.inbox h2.blen h2.clen
+  dsimp only [envOf] at hspec
+  obtain ⟨rv', I', cfs, hc, c4, cz, czp, c6, c7, c8, c9, c10, c11, c12, c13, c14, c15, c16⟩ := hspec
+  generalize hops : ((if getN rv'.cnt i > 0 then cfs.flatMap (fun (it : Nat) =>
+          [Op.bc (tagX n) (it : Int), Op.bc (tagX n) (getI P.st.xr.srow it), Op.bc (tagX n) (getI P.st.xr.sprow it)])
+        else []) ++ [Op.bc (tagX n) (n : Int)]) = ops at hc
+  have hsx : genStepC G ins 2 i P.st P.inbox = .ok ({ P.st with xr := rv' }, I', ops, .run) :=
+    xa_step2 (G := G) ins i P.st P.inbox I' rv' ops
+      (by rw [xa_env_eq P.st n t i hs.hn hs.ht hs.hi, hs.hn]; exact hc)
+  obtain ⟨hout, P', hP', e1, e2, e3, e4, e5, e6, e7, e8, e9⟩ :=
+    ag_honest_round (genStepC G ins 2) R i P hP h2.hl _ _ _ _ hsx
+  subst hops
+  refine ⟨P, { P.st with xr := rv' }, I', if getN rv'.cnt i > 0 then cfs else [], P', hP, h2, hP', ?_, ?_, ?_, e1,
+    ⟨by rw [e4]; exact h2.hl.1, e5, e3, e2⟩, e6.trans c8, fun k hk => e8 k (by rw [c8]; exact hk),
+    ⟨hs.hn, hs.ht, hs.hi, hs.sfb, hs.strong,
+      by rw [show ({ P.st with xr := rv' } : GSt).xr = rv' from rfl, cz]; exact hs.z,
+      by rw [show ({ P.st with xr := rv' } : GSt).xr = rv' from rfl, czp]; exact hs.zp⟩,
+    c4, c10, c11, c12, c13.trans h2.cplen, ?_, ?_, by show InR G.q rv'.s; rw [c16]; exact h2.sIn⟩
+  · rw [hout]
+    simp only
+    split
+    · exact xa_bcs_triples (tagX n) cfs _ _ n
+    · rfl
+  · split
+    · exact c6
+    · simp
+  · split
+    · exact c7
+    · simp
+  · intro k hk x
+    show x ∈ rv'.complainers.getD k [] ↔ _
+    rw [c14 k x (by rw [h2.cplen]; exact hk), h2.cps k hk x]
+  · intro x hx hxi hmem
+    have hpos : 0 < getN rv'.cnt i := by
+      rw [c11 i hin]
+      have h1 : 0 < (rcNewsT (tagX n) n (bsOf P.inbox x)).count i := List.count_pos_iff.mpr hmem
+      have h2' := ag_le_sum_map ((List.range n).filter (fun y => y ≠ i))
+        (fun y => (rcNewsT (tagX n) n (bsOf P.inbox y)).count i) x
+        (List.mem_filter.mpr ⟨List.mem_range.mpr hx, by simpa using hxi⟩)
+      omega
+    rw [if_pos hpos]
+    exact (c15 x).mpr ⟨hx, hxi, hmem⟩
+
+theorem xa_round2 {n t : Nat} {ins : List PartyIn} (S : SettingC G n t ins) (hn64 : n < 2 ^ 64)
+    (hf : n - (honestIdx ins).length ≤ t)
+    (R : List (Party GSt)) (h : InvC2 G n t ins R) : InvC3 G n t ins (runRound (genStepC G ins 2) R) := by
+  obtain ⟨hlen, hS, hAg, hX⟩ := h
+  have hG := S.hG
+  have hparty := xa_round2_party (G := G) S.hn R hS
+  have hnh : (List.range n).countP (fun x => !((pinOf ins x).dev1.honest)) ≤ t := by
+    have := ag_countP_nothonest ins
+    rw [S.hn] at this
+    omega
+  refine ⟨by rw [ag_runRound_length, hlen], ?_, ?_, ?_⟩
+  · intro i hi
+    obtain ⟨P, st', I', cfs, P', hP, h2, hP', hout, cl, cx, e1, hl', bl, hb, vs, v4, v5, v6, v7, v8, v9, v10, v11⟩ :=
+      hparty i hi
+    refine ⟨P', hP', ⟨hl', by rw [e1]; exact vs, bl, ?_, by rw [e1]; exact v11⟩⟩
+    intro j hj
+    obtain ⟨hj1, -⟩ := (ag_mem_honestIdx ins j).mp hj
+    rw [S.hn] at hj1
+    rw [e1]
+    refine ⟨by rw [v4]; exact (h2.CH j hj).1, ?_, ?_⟩
+    · rw [v6 j hj1, (h2.CH j hj).2, Nat.zero_add]
+      refine le_trans ?_ hnh
+      refine le_trans (ag_sum_le_countP _ _ (fun x => (pinOf ins x).dev1.honest)
+        (fun x _ => xa_rcNewsT_count_le (tagX n) n _ j) ?_) ?_
+      · intro x hx hxh
+        obtain ⟨hx1, hx2⟩ := List.mem_filter.mp hx
+        have hxn : x < n := List.mem_range.mp hx1
+        have hxi : x ≠ i := by simpa using hx2
+        have hxhon : x ∈ honestIdx ins := (ag_mem_honestIdx ins x).mpr ⟨by rw [S.hn]; exact hxn, hxh⟩
+        obtain ⟨Px, hPx, h2x⟩ := hS x hxhon
+        have := (hX x i Px P hxhon hi hPx hP hxi).2.2.2 j hj1
+        rw [this]
+        exact (h2x.CH j hj).2
+      · exact (List.filter_sublist).countP_le
+    · rw [v7 j]
+      rintro ⟨-, hji, hbad⟩
+      obtain ⟨Pj, hPj, -⟩ := hS j hj
+      have := (hX j i Pj P hj hi hPj hP hji).2.1
+      rw [this] at hbad
+      exact Bool.false_ne_true hbad
+  · intro i i' P1 P1' hi hi' hP1 hP1' k hk hki hki'
+    obtain ⟨P, st', I', cfs, P', hP, h2, hP', hout, cl, cx, e1, hl', bl, hb, vs, v4, v5, v6, v7, v8, v9, v10, v11⟩ :=
+      hparty i hi
+    obtain ⟨Q, stq, Iq, cfq, Q', hQ, hq2, hQ', houtq, clq, cxq, f1, hlq', blq, hbq, ws, w4, w5, w6, w7, w8, w9, w10, w11⟩ :=
+      hparty i' hi'
+    rw [hP'] at hP1
+    rw [hQ'] at hP1'
+    injection hP1 with hP1
+    injection hP1' with hP1'
+    subst hP1 hP1'
+    rw [hb k hk, hbq k hk, v5 k hk hki, w5 k hk hki', hAg i i' P Q hi hi' hP hQ k hk hki hki']
+    simp [hki, hki']
+  · intro i i' P1 P1' hi hi' hP1 hP1' hne
+    obtain ⟨P, st', I', cfs, P', hP, h2, hP', hout, cl, cx, e1, hl', bl, hb, vs, v4, v5, v6, v7, v8, v9, v10, v11⟩ :=
+      hparty i hi
+    obtain ⟨Q, stq, Iq, cfq, Q', hQ, hq2, hQ', houtq, clq, cxq, f1, hlq', blq, hbq, ws, w4, w5, w6, w7, w8, w9, w10, w11⟩ :=
+      hparty i' hi'
+    rw [hP'] at hP1
+    rw [hQ'] at hP1'
+    injection hP1 with hP1
+    injection hP1' with hP1'
+    subst hP1 hP1'
+    obtain ⟨hi1, -⟩ := (ag_mem_honestIdx ins i).mp hi
+    rw [S.hn] at hi1
+    obtain ⟨hi1', -⟩ := (ag_mem_honestIdx ins i').mp hi'
+    rw [S.hn] at hi1'
+    obtain ⟨x1, x2, x3, x4⟩ := hX i i' P Q hi hi' hP hQ hne
+    obtain ⟨y1, y2, y3, y4⟩ := hX i' i Q P hi' hi hQ hP (Ne.symm hne)
+    have hstream : bsOf Q'.inbox i =
+        cfs.flatMap (fun (it : Nat) => [(tagX n, (it : Int)),
+          (tagX n, getI P.st.xr.srow it), (tagX n, getI P.st.xr.sprow it)]) ++ [(tagX n, (n : Int))] := by
+      rw [hbq i hi1, w5 i hi1 hne, x3, hout]
+      simp [hne]
+    refine ⟨?_, ?_, ?_, ?_, ?_⟩
+    · intro k hk hki hki'
+      rw [e1, f1, v4, w4]
+      refine ⟨x1 k hk hki hki', ?_⟩
+      rw [v7 k, w7 k, hAg i i' P Q hi hi' hP hQ k hk hki hki']
+      simp [hk, hki, hki']
+    · intro w hw
+      rw [e1, f1, v6 w hw, w6 w hw, ← x4 w hw, ← y4 w hw]
+      rw [ag_sum_filter_ne (List.range n) List.nodup_range i (List.mem_range.mpr hi1),
+        ag_sum_filter_ne (List.range n) List.nodup_range i' (List.mem_range.mpr hi1')]
+      congr 1
+      apply List.map_congr_left
+      intro x hx
+      have hxn : x < n := List.mem_range.mp hx
+      by_cases hxi : x = i
+      · subst hxi
+        simp [hne]
+      · by_cases hxi' : x = i'
+        · subst hxi'
+          simp [hxi]
+        · simp only [hxi, hxi', if_false]
+          rw [hAg i i' P Q hi hi' hP hQ x hxn hxi hxi']
+    · have : Fact (Nat.Prime G.q.natAbs) := fact_q hG
+      have hci := xa_goodCoins t _ (S.hc i hi)
+      obtain ⟨ha, hb', hla, hlb⟩ := ag_coef_range (G := G) t (pinOf ins i) hci
+      have hra := xa_raT_honest (envOf G n t i') (tagX n) hn64 (comOf G t (pinOf ins i))
+        (fun it => getI P.st.xr.srow it)
+        (fun it => getI P.st.xr.sprow it) cfs (n + 1) (by omega) (by
+          intro it hit
+          have hitn := cx it hit
+          rw [h2.srow, h2.sprow, ag_getI_map_range _ _ it hitn, ag_getI_map_range _ _ it hitn]
+          obtain ⟨l, r, e1, e2, e3⟩ := share_check_F hG _ _ (hla.trans hlb.symm) ha hb' _
+            (ag_comOf_spec hG t (pinOf ins i) hci).1 (it + 1)
+          refine ⟨hitn, (ag_sh_range hG t _ it).1, (ag_sh_range hG t _ it).2.1, l, e1, ?_⟩
+          rw [xa_envOf_pt n t i' it hitn, e2, e3])
+      simp only [raBadT]
+      rw [hstream]
+      dsimp only [envOf] at hra ⊢
+      rw [hra]
+      rfl
+    · intro k hk hki hki' c
+      rw [e1, f1, v9 k hk c, w9 k hk c]
+      have hp1 : 0 < getN P.st.xr.cnt k ↔ k ∈ rcNewsT (tagX n) n (bsOf Q.inbox i) := by
+        rw [← x4 k hk]; exact List.count_pos_iff
+      have hp2 : 0 < getN Q.st.xr.cnt k ↔ k ∈ rcNewsT (tagX n) n (bsOf P.inbox i') := by
+        rw [← y4 k hk]; exact List.count_pos_iff
+      by_cases hci : c = i
+      · subst hci
+        simp [hne, hp1, hi1]
+      · by_cases hci' : c = i'
+        · subst hci'
+          simp [hci, hp2, hi1']
+        · simp only [hci, hci', false_and, false_or, ne_eq, not_false_eq_true, true_and]
+          constructor
+          · rintro ⟨hc, hm⟩
+            exact ⟨hc, by rw [← hAg i i' P Q hi hi' hP hQ c hc hci hci']; exact hm⟩
+          · rintro ⟨hc, hm⟩
+            exact ⟨hc, by rw [hAg i i' P Q hi hi' hP hQ c hc hci hci']; exact hm⟩
+    · intro c
+      rw [f1, w9 i hi1 c, hstream, xa_anT_honest (tagX n) n hn64 _ _ cfs (n + 1) (by omega) cx []]
+      rintro (⟨-, hpos⟩ | ⟨hc, hci', hmem⟩)
+      · rw [(hq2.CH i hi).2] at hpos
+        exact absurd hpos (Nat.lt_irrefl 0)
+      · by_cases hci : c = i
+        · subst hci
+          have h0 : (rcNewsT (tagX n) n (bsOf Q.inbox c)).count c = 0 := by
+            rw [x4 c hi1]; exact (h2.CH c hi).2
+          exact absurd (List.count_pos_iff.mpr hmem) (by omega)
+        · rw [← hAg i i' P Q hi hi' hP hQ c hc hci hci'] at hmem
+          simpa using v10 c hc hci hmem
+
+/-! ### (12) round 3: QUAL; the agreement theorems -/
+
+/-- the public resolution of step 1(d) does not depend on the reader's index -/
+theorem xa_raT_env (n t i i' : Nat) (tag : Tag) (Cj : List Int) (f : Nat) (s : List (Tag × Int)) :
+    raT (envOf G n t i) tag Cj f s = raT (envOf G n t i') tag Cj f s := by
+  induction f generalizing s with
+  | zero => rfl
+  | succ f ih =>
+    unfold raT
+    simp only [ih]
+    rfl
+
+theorem xa_raBadT_env (n t i i' : Nat) (tag : Tag) (Cj : List Int) (s : List (Tag × Int)) :
+    raBadT (envOf G n t i) tag Cj s = raBadT (envOf G n t i') tag Cj s := by
+  unfold raBadT
+  rw [xa_raT_env n t i i']
+
+/-- after round 3: every honest party's QUAL contains every honest party, and two honest parties
+    have the same QUAL -/
+def InvC4 (ins : List PartyIn) (R : List (Party GSt)) : Prop :=
+  (∀ i, i ∈ honestIdx ins → ∃ P, R[i]? = some P ∧ ∀ j, j ∈ honestIdx ins → j ∈ P.st.xr.qual) ∧
+  (∀ i i' P P', i ∈ honestIdx ins → i' ∈ honestIdx ins → R[i]? = some P → R[i']? = some P' →
+    P.st.xr.qual = P'.st.xr.qual)
+
+theorem xa_unBT_iff (E : Env) (tag : Tag) (rv : Rv) (k : Nat) (s : List (Tag × Int)) :
+    unBT E tag rv k s = true ↔ ∃ c ∈ rv.complainers.getD k [], c ∉ anT tag E.n (E.n + 1) s [] := by
+  simp [unBT, List.any_eq_true]
+
+/-- round 3 for one honest party -/
+theorem xa_round3_party {n t : Nat} {ins : List PartyIn} (S : SettingC G n t ins) (R : List (Party GSt))
+    (i : Nat) (hi : i ∈ honestIdx ins) (P : Party GSt)
+    (hP : R[i]? = some P) (hl : HL P) (hs : HS G n t ins i P.st)
+    (hb : P.inbox.b.length = n) (hsin : InR G.q P.st.xr.s) :
+    ∃ P' : Party GSt, (runRound (genStepC G ins 3) R)[i]? = some P' ∧
+      (∃ p : Nat → Bool, P'.st.xr.qual = (List.range n).filter p) ∧
+      ∀ k, k ∈ P'.st.xr.qual ↔ k < n ∧ ¬ (k ∈ P.st.xr.compl ∨ t < getN P.st.xr.cnt k ∨
+        (k ≠ i ∧ (raBadT (envOf G n t i) (tagX n) (getRow P.st.xr.C k) (bsOf P.inbox k) = true ∨
+          ∃ c ∈ P.st.xr.complainers.getD k [], c ∉ anT (tagX n) n (n + 1) (bsOf P.inbox k) []))) := by
+  have hG := S.hG
+  have hq0 : 0 < G.q := hG.vg.q_pos
+  have hspec := xa_rvResolve_spec (envOf G n t i) hG (tagX n) P.st.xr P.inbox hb hsin
+  obtain ⟨rv', I', hr, vz, vzp, ⟨p, hp⟩, hq⟩ := hspec
+  simp only [xa_unBT_iff] at hq
+  dsimp only [envOf] at hp hq
+  obtain ⟨st', ops, status, hstep, hxr⟩ := xa_step3 hG ins i P.st P.inbox I' rv'
+    (by rw [xa_env_eq P.st n t i hs.hn hs.ht hs.hi, hs.hn]; exact hr) hs.sfb
+    (by rw [vz]; exact hs.z) (by rw [vzp]; exact hs.zp)
+    (by rw [hs.strong]; exact xa_coin_range hq0 t _ (S.hc i hi) _)
+    (by rw [hs.strong]; exact xa_coin_range hq0 t _ (S.hc i hi) _)
+  obtain ⟨-, P', hP', e1, -⟩ := ag_honest_round (genStepC G ins 3) R i P hP hl _ _ _ _ hstep
+  exact ⟨P', hP', ⟨p, by rw [e1, hxr]; exact hp⟩, by rw [e1, hxr]; exact hq⟩
+
+theorem xa_round3 {n t : Nat} {ins : List PartyIn} (S : SettingC G n t ins) (R : List (Party GSt))
+    (h : InvC3 G n t ins R) : InvC4 ins (runRound (genStepC G ins 3) R) := by
+  obtain ⟨hlen, hS, hAg, hX⟩ := h
+  have hG := S.hG
+  have hparty : ∀ i, i ∈ honestIdx ins → ∃ (P P' : Party GSt),
+      R[i]? = some P ∧ S3C G n t ins i P ∧ (runRound (genStepC G ins 3) R)[i]? = some P' ∧
+      (∃ p : Nat → Bool, P'.st.xr.qual = (List.range n).filter p) ∧
+      ∀ k, k ∈ P'.st.xr.qual ↔ k < n ∧ ¬ (k ∈ P.st.xr.compl ∨ t < getN P.st.xr.cnt k ∨
+        (k ≠ i ∧ (raBadT (envOf G n t i) (tagX n) (getRow P.st.xr.C k) (bsOf P.inbox k) = true ∨
+          ∃ c ∈ P.st.xr.complainers.getD k [], c ∉ anT (tagX n) n (n + 1) (bsOf P.inbox k) []))) := by
+    intro i hi
+    obtain ⟨P, hP, h3⟩ := hS i hi
+    obtain ⟨P', hP', hp, hq⟩ := xa_round3_party S R i hi P hP h3.hl h3.hs h3.blen h3.sIn
+    exact ⟨P, P', hP, h3, hP', hp, hq⟩
+  have hmem : ∀ i, i ∈ honestIdx ins → ∀ (P P' : Party GSt), R[i]? = some P →
+      (∀ k, k ∈ P'.st.xr.qual ↔ k < n ∧ ¬ (k ∈ P.st.xr.compl ∨ t < getN P.st.xr.cnt k ∨
+        (k ≠ i ∧ (raBadT (envOf G n t i) (tagX n) (getRow P.st.xr.C k) (bsOf P.inbox k) = true ∨
+          ∃ c ∈ P.st.xr.complainers.getD k [], c ∉ anT (tagX n) n (n + 1) (bsOf P.inbox k) [])))) →
+      ∀ j, j ∈ honestIdx ins → j ∈ P'.st.xr.qual := by
+    intro i hi P P' hP hq j hj
+    obtain ⟨P0, hP0, h3⟩ := hS i hi
+    rw [hP] at hP0
+    injection hP0 with hP0
+    subst hP0
+    obtain ⟨hj1, -⟩ := (ag_mem_honestIdx ins j).mp hj
+    rw [S.hn] at hj1
+    obtain ⟨c1, c2, c3⟩ := h3.CH j hj
+    rw [hq j]
+    refine ⟨hj1, ?_⟩
+    rintro (h | h | ⟨hji, h | ⟨c, hc, hnc⟩⟩)
+    · exact c3 h
+    · omega
+    · obtain ⟨Pj, hPj, -⟩ := hS j hj
+      have := (hX j i Pj P hj hi hPj hP hji).2.2.1
+      rw [c1, this] at h
+      exact Bool.false_ne_true h
+    · obtain ⟨Pj, hPj, -⟩ := hS j hj
+      exact hnc ((hX j i Pj P hj hi hPj hP hji).2.2.2.2 c hc)
+  constructor
+  · intro i hi
+    obtain ⟨P, P', hP, h3, hP', -, hq⟩ := hparty i hi
+    exact ⟨P', hP', hmem i hi P P' hP hq⟩
+  · intro i i' P1 P1' hi hi' hP1 hP1'
+    by_cases hne : i = i'
+    · subst hne
+      rw [hP1] at hP1'
+      injection hP1' with hP1'
+      rw [hP1']
+    obtain ⟨P, P', hP, h3, hP', ⟨p, hp⟩, hq⟩ := hparty i hi
+    obtain ⟨Q, Q', hQ, hq3, hQ', ⟨p', hp'⟩, hqq⟩ := hparty i' hi'
+    rw [hP'] at hP1
+    rw [hQ'] at hP1'
+    injection hP1 with hP1
+    injection hP1' with hP1'
+    subst hP1 hP1'
+    rw [hp, hp']
+    apply ag_filter_range_eq
+    intro k
+    rw [← hp, ← hp']
+    by_cases hki : k = i
+    · subst hki
+      exact ⟨fun _ => hmem i' hi' Q Q' hQ hqq k hi, fun _ => hmem k hi P P' hP hq k hi⟩
+    by_cases hki' : k = i'
+    · subst hki'
+      exact ⟨fun _ => hmem k hi' Q Q' hQ hqq k hi', fun _ => hmem i hi P P' hP hq k hi'⟩
+    rw [hq k, hqq k]
+    by_cases hk : k < n
+    · obtain ⟨x1, x2, -, x4, -⟩ := hX i i' P Q hi hi' hP hQ hne
+      obtain ⟨y1, y2⟩ := x1 k hk hki hki'
+      have x5 := x4 k hk hki hki'
+      rw [y1, y2, x2 k hk, hAg i i' P Q hi hi' hP hQ k hk hki hki', xa_raBadT_env n t i i']
+      simp only [x5]
+      simp [hki, hki']
+    · simp [hk]
+
+theorem xa_range_split (t : Nat) : List.range (genRounds t) = [0, 1, 2, 3] ++ List.range' 4 (7 + 2 * t) := by
+  rw [List.range_eq_range', show genRounds t = 4 + (7 + 2 * t) by unfold genRounds; omega, ← List.range'_append_1]
+  rfl
+
+/-- the run up to QUAL -/
+theorem xa_inv4 {n t : Nat} {ins : List PartyIn} (S : SettingC G n t ins) (hn64 : n < 2 ^ 64)
+    (hf : n - (honestIdx ins).length ≤ t) :
+    InvC4 ins (runRounds (genStepC G ins) [0, 1, 2, 3] (ps0C n t ins)) :=
+  xa_round3 S _ (xa_round2 S hn64 hf _ (xa_round1 S hn64 _ (xa_round0 S)))
+
+theorem xa_runGenC_qual (n t : Nat) (ins : List PartyIn) (i : Nat) :
+    ((runGenC G n t ins)[i]?).map (fun P => P.st.xr) =
+      ((runRounds (genStepC G ins) [0, 1, 2, 3] (ps0C n t ins))[i]?).map (fun P => P.st.xr) := by
+  rw [xa_runGenC_eq, xa_range_split, ag_runRounds_append]
+  apply xa_runRounds_xr
+  intro k hk
+  have := (List.mem_range'_1.mp hk).1
+  exact this
+
+/-- all honest parties compute the same `x_rvss->QUAL` (for ALL scripts of the other parties).
+    The statement is that of `qual_agree'` (TmcgProofs/DkgAgree.lean) for `runGenC`; as there, the bound
+    `n < 2^64` is needed because `mpz_get_ui` truncates the end marker `n` of a complaint list. -/
 theorem xqual_agree (hG : ValidGrp G) (n t : Nat) (ins : List PartyIn) (hn : ins.length = n) (ht : 2 * t < n)
     (hn64 : n < 2 ^ 64)
     (hf : n - (honestIdx ins).length ≤ t)
@@ -30,7 +806,23 @@ theorem xqual_agree (hG : ValidGrp G) (n t : Nat) (ins : List PartyIn) (hn : ins
     (i j : Nat) (hi : i ∈ honestIdx ins) (hj : j ∈ honestIdx ins) (Pi Pj : Party GSt)
     (hPi : (runGenC G n t ins)[i]? = some Pi) (hPj : (runGenC G n t ins)[j]? = some Pj) :
     Pi.st.xr.qual = Pj.st.xr.qual := by
-  sorry
+  have S : SettingC G n t ins := ⟨hG, hn, hc⟩
+  obtain ⟨-, h4⟩ := xa_inv4 S hn64 hf
+  have e1 := xa_runGenC_qual (G := G) n t ins i
+  have e2 := xa_runGenC_qual (G := G) n t ins j
+  rw [hPi] at e1
+  rw [hPj] at e2
+  cases hQi : (runRounds (genStepC G ins) [0, 1, 2, 3] (ps0C n t ins))[i]? with
+  | none => rw [hQi] at e1; cases e1
+  | some Qi =>
+    cases hQj : (runRounds (genStepC G ins) [0, 1, 2, 3] (ps0C n t ins))[j]? with
+    | none => rw [hQj] at e2; cases e2
+    | some Qj =>
+      rw [hQi] at e1
+      rw [hQj] at e2
+      simp only [Option.map_some, Option.some.injEq] at e1 e2
+      rw [e1, e2]
+      exact h4 i j Qi Qj hi hj hQi hQj
 
 /-- honest parties are never disqualified in the joint sharing of the key -/
 theorem honest_in_xqual (hG : ValidGrp G) (n t : Nat) (ins : List PartyIn) (hn : ins.length = n) (ht : 2 * t < n)
@@ -40,6 +832,14 @@ theorem honest_in_xqual (hG : ValidGrp G) (n t : Nat) (ins : List PartyIn) (hn :
     (i j : Nat) (hi : i ∈ honestIdx ins) (hj : j ∈ honestIdx ins) (Pi : Party GSt)
     (hPi : (runGenC G n t ins)[i]? = some Pi) :
     j ∈ Pi.st.xr.qual := by
-  sorry
+  have S : SettingC G n t ins := ⟨hG, hn, hc⟩
+  obtain ⟨h4, -⟩ := xa_inv4 S hn64 hf
+  have e1 := xa_runGenC_qual (G := G) n t ins i
+  rw [hPi] at e1
+  obtain ⟨Qi, hQi, hq⟩ := h4 i hi
+  rw [hQi] at e1
+  simp only [Option.map_some, Option.some.injEq] at e1
+  rw [e1]
+  exact hq j hj
 
 end Tmcg.CgjkrP
